@@ -51,4 +51,38 @@ def Valid (o : Opt) (v : Val) (c : Cache) : Prop :=
 /-- `Register` compiles a pattern whenever allowed values are given. -/
 def RegOK (o : Opt) : Prop := o.pvs.isSome = true → o.rx.isNone = false
 
+/-- Well-formed states: what `Register` and every setter maintain.
+    * keys are unique (the registry is a map),
+    * every option has a compiled pattern if it has allowed values,
+    * the release-level option is a stable string option and the atomic gate is the level of its layered value
+      (user layer, else default layer, else registered default),
+    * every user-layer value is a value that validates to itself after the trip through config.json,
+    * the values in config.json are well-formed Go values. -/
+structure WF (st : St) : Prop where
+  nodup : (st.opts.map (·.key)).Nodup
+  reg : ∀ o ∈ st.opts, RegOK o
+  rl : ∃ o, st.find rlKey = some o ∧ o.ty = .str ∧ o.rl = 0 ∧ st.gate = levelOf (layered o).s
+  uvalid : ∀ o ∈ st.opts, ∀ c, o.user = some c → check o (jsonVal o.ty c) = .ok c
+  fileWF : ∀ t, st.file = .tree t → ∀ e ∈ t, e.2.WF
+
+/-- The effective release-level setting: what the getter itself returns for the release-level option. -/
+def effRL (st : St) : Nat :=
+  match get st rlKey (.s "") with
+  | .s x => levelOf x
+  | _ => 0
+
+/-- Two options describe the same registered option (only the value layers may differ). -/
+def SameStatic (a b : Opt) : Prop :=
+  a.key = b.key ∧ a.ty = b.ty ∧ a.rl = b.rl ∧ a.rx = b.rx ∧ a.pvs = b.pvs ∧ a.vf = b.vf ∧ a.mg = b.mg ∧ a.fallback = b.fallback
+
+/-- No registered key is a path prefix of another one (then `Expand` never replaces anything). -/
+def PrefixFree (keys : List Key) : Prop := keys.Pairwise (fun a b => conflicts a b = false)
+
+/-- Every value in a call is a Go value of its kind. -/
+def Op.WF : Op → Prop
+  | .set _ v | .setd _ v => v.WF
+  | .rep m | .repd m => ∀ e ∈ m, e.2.WF
+  | .wfile (.tree t) => ∀ e ∈ t, e.2.WF
+  | _ => True
+
 end PB.Config
